@@ -128,6 +128,10 @@ def gen_time_axis(tier, seed):
     # dt given explicitly as 0 / 0.0 (a numeric option with a default: `dt or 0.002` is exact for every other value): t == 0 in every row
     yield from root_cases("C14.time_axis", "sv", (False, True), (1,), 4, ["even", "uneven"], [0.0, 0], offset=30)
     yield from root_cases("C14.time_axis", "s", (False,), (1,), 4, ["event"], [1e-15, 2e-12, 1e6], offset=10 ** 12)
+    # dt given as a Python int (1 fs steps in real units are common): with non-integer values an accumulator whose dtype follows dt truncates
+    for c in root_cases("C14.time_axis", "svt", (False, True), (2,), 3, ["even", "uneven"], [1, 2], offset=30):
+        c["scale"] = 1.0 / 3.0
+        yield c
 
 
 def gen_dtypes(tier, seed):
